@@ -166,6 +166,20 @@ def report(chk, fails, own_kinds, search):
                                          what="the store to %s is no longer followed by a full fence (memory order %s instead of seq_cst): Lean-checked "
                                               "x86-TSO store-buffering run with one unfenced side (%s)" % (mw.group(1), mw.group(2), dmsg[:140])))
             return
+    if "C02" == chk.pid and ("[qsbr: waiting[] stores before the scan" in dmsg or
+                             (re.search(r"ST reader\S*\.waiting", dmsg) and "expected LD" in dmsg) or
+                             (re.search(r"expected ST reader\S*\.waiting", dmsg))):
+        # qsbr: the full fence between the updater's waiting[i] := 1 stores and its scan is gone (e.g. the arming store folded into
+        # the scan loop: store waiting[i]; load ctr[i] is a store->load pair on x86-TSO)
+        ok, log = vlib.lake_build(["UrcuVerif.Neg.C02Qsbr"])
+        if ok:
+            chk.fail("tso-witness", dict(f, scenario="gp", theorem="UrcuVerif.QsbrHs.Neg.lost_wakeup_without_arm_fence",
+                                         model_run=["w0 (futex := -1, buffered)", "wArm 0 (waiting[0] := 1, buffered)", "flushFutM1", "scan starts: w1Some 0 sees reader 0 not yet quiescent",
+                                                    "k0 0 (reader announces its quiescent state)", "k1Clear 0 (reader loads waiting[0] = 0 from memory: no wake-up)",
+                                                    "flushWait 0 (too late)", "w2Sleep -> updater asleep on futex = -1, the only reader is done"],
+                                         what="qsbr: the code no longer issues the full fence between arming the readers' waiting flags and scanning their "
+                                              "words; Lean-checked x86-TSO run of the handshake without it loses the wake-up (%s)" % dmsg[:160]))
+            return
     if "C02" == chk.pid and ("[reader slave fence]" in dmsg or "[master barrier" in dmsg) and re.search(r"\b(SUB|ADD|DEC|ST|LD)\w* gp\.futex", ctx):
         # a fence of the futex handshake is missing (between the leader's `dec futex` and its scan, or between the reader's
         # unlock store and its test of the futex): invisible to the SC harness, the Lean-checked x86-TSO run of the handshake
